@@ -745,9 +745,10 @@ def check_sem(case, H):
             all(isinstance(v, int) and not isinstance(v, bool) and 0 <= v <= 40 for v in init)):
         raise CaseInvalid('init')
     st0 = {i: v for i, v in enumerate(init)}
-    fin, _, iters = L.run(com_j, st0, fuel=case.get('fuel', 14) if isinstance(case.get('fuel', 14), int) else 14)
+    fin, _, iters = L.run(com_j, st0, fuel=14, limit=5000)
     if fin is None:
-        H.inconc('reference-out-of-fuel')
+        # eval_Sem would not return (or would build numerals of unbounded size)
+        H.inconc('reference-out-of-fuel-or-range')
         H.case(case, False, 'sem:diverges-in-reference')
         return
     R['theory'].thy = R['thy']
@@ -875,7 +876,7 @@ def check_hvcg(case, H):
             seen.setdefault(harness.canon(slots(st)), slots(st))
             if not L.ev_cond(pre_j, st):
                 continue
-            fin, visited, iters = L.run(com_j, st, 40)
+            fin, visited, iters = L.run(com_j, st, 40, 10 ** 6)
             for v in visited:
                 seen.setdefault(harness.canon(slots(v)), slots(v))
             if fin is None:
